@@ -7,7 +7,7 @@ from checks.skel import Unit, CubeQuery, run_cubes
 H = os.path.join(VERIF, 'harness', 'h_obs.cpp')
 OPN = ['=', '+=', '-=', '*=', '/=', '++x', 'x++', '--x', 'x--', 'apply(add)', 'apply(no net change)']
 TYPES = {0: ('Observable<int>', [0, 1, 2, 5, 6, 7, 8, 9, 10]), 1: ('Observable<short>', [0, 1, 2, 3, 4, 5, 6, 7, 8, 9, 10]),
-         2: ('Observable<float, NearEq(0.5)>', [0, 1, 2, 9, 10]), 3: ('Observable<std::string> (model string)', [0, 1, 9, 10])}
+         2: ('Observable<float, NearEq(0.5)>', [0, 1, 2, 9, 10]), 4: ('Observable<int, BucketEq> (coarse equality: ++/-- inside one class must still notify)', [0, 1, 5, 6, 7, 8, 9]), 3: ('Observable<std::string> (model string)', [0, 1, 9, 10])}
 
 
 def plan(tier):
